@@ -847,7 +847,11 @@ def coq_terms(case, obs):
     elif k == "weights":
         wh, w = case["which"], _ql(case["w"])
         r = obs["r"]["v"]
-        if wh in ("normalize", "impose_sum"):
+        if wh in ("normalize", "impose_sum") and sum(_fx(case["w"])) == 0 and any(v != 0 for v in case["w"]):
+            # weights that sum to zero cannot be scaled to a total (outside the claim); whether the implementation notices the zero sum
+            # depends on the rounding of weights / sum(abs(weights)) in binary64, which the exact-rational model does not follow
+            pass
+        elif wh in ("normalize", "impose_sum"):
             fn = "normalize NumQ %s %s %s %s" % (w, qlit(case["mass"]), blit(case["zsum"]), qlit(case["zmass"])) if wh == "normalize" \
                 else "impose_sum NumQ %s %s %s %s" % (qlit(case["mass"]), w, blit(case["zsum"]), qlit(case["zmass"]))
             T.append("oql %s (%s) %s" % (ex, fn, _oql(r)))
